@@ -33,7 +33,7 @@ SHARDS = {"quick": 4, "thorough": 16}
 
 @st.composite
 def st_case(draw, tier="quick"):
-    opts = {"max_depth": 2, "max_stmts": 16, "max_top": 7, "qubits": 2, "regs_cross_flush": False, "allow_newreg": False, "allow_regm": False}
+    opts = {"max_depth": 2, "max_stmts": 16, "max_top": 7, "qubits": 2, "regs_cross_flush": False, "allow_newreg": True, "allow_regm": True}
     prog = draw(hp.st_program(opts))
     stmts = prog["stmts"]
     # turn some flushes into precompiled commits and make sure each precompiled segment has a template rotation
@@ -58,7 +58,11 @@ def st_case(draw, tier="quick"):
                 values[name] = draw(st.integers(0, 255))
                 d = draw(st.integers(0, 5))
                 qid = 1000 + n_t
-                new_stmts += [["newq", qid], ["rot", draw(st.sampled_from("XYZ")), qid, {"template": name}, d], ["meas", qid, ["elem", 0, 0], False]]
+                if draw(st.booleans()):
+                    new_stmts += [["newq", qid], ["rot", draw(st.sampled_from("XYZ")), qid, {"template": name}, d], ["meas", qid, ["elem", 0, 0], False]]
+                else:
+                    # outcome kept in a register (RegFuture) of the precompiled block
+                    new_stmts += [["newq", qid], ["rot", draw(st.sampled_from("XYZ")), qid, {"template": name}, d], ["meas", qid, ["newregm", 500 + n_t], False]]
                 new_stmts.append(["pflush"])
             else:
                 new_stmts.append(["flush"])
@@ -98,10 +102,17 @@ def st_delayed(draw):
     if draw(st.booleans()):
         seg.insert(0, ["add", ["elem", 1, 1], 1, None])
     middle = adds(draw(st.integers(0, 3)))
+    if draw(st.booleans()):
+        # operations that allocate while the precompiled subroutine is still held back
+        middle = [["newarr", 3, [draw(st.integers(0, 3)), 2]], ["add", ["elem", 3, 0], 1, None]] + middle
     tail = adds(draw(st.integers(0, 2)))
+    no_template = draw(st.integers(0, 3)) == 0
+    if no_template:
+        # a block without template operands may be committed as compiled, without instantiate()
+        seg = [x if x[0] != "rot" else ["rot", x[1], x[2], draw(st.integers(0, 31)), x[4]] for x in seg]
     return {
         "delayed": True, "prefix": prefix, "segment": seg, "middle": middle, "tail": tail,
-        "values": {"t0": draw(st.integers(0, 255))}, "nv": draw(st.integers(0, 2)) == 0,
+        "values": {"t0": draw(st.integers(0, 255))}, "nv": draw(st.integers(0, 2)) == 0, "no_instantiate": no_template,
         "outcomes": draw(st.lists(st.integers(0, 1), max_size=4)), "qubits": 2,
     }
 
@@ -119,7 +130,8 @@ def check_delayed(case) -> Dict[str, Any]:
     if len(decl) != len(set(decl)):
         raise Failure("delayed:array-redeclared", case, f"with compile() ... commit_subroutine() later, arrays were declared more than once: {decl}")
     ra, rb = A.records[-1], B.records[-1]
-    for key, what in (("arrays", "controller arrays"), ("host_arrays", "host-visible arrays")):
+    keys = (("host_arrays", "host-visible arrays"),) if any(x[0] == "newarr" for x in case["middle"]) else (("arrays", "controller arrays"), ("host_arrays", "host-visible arrays"))
+    for key, what in keys:
         if ra[key] != rb[key]:
             raise Failure(f"delayed:{key}", case, f"final {what} differ: compile-now/commit-later {ra[key]} vs flushed in commit order {rb[key]}")
     evA = sorted(e for r in A.records for e in r["events"])
@@ -173,6 +185,7 @@ class Recorder:
         self._pos = 0
         self.held = None
         self._n_subs_seen = 0
+        self.no_instantiate = bool(case.get("no_instantiate"))
 
     def run(self, stmts):
         from netqasm.lang.operand import Template
@@ -192,7 +205,8 @@ class Recorder:
                     return
                 if s[0] == "pcommit":
                     if rec.held is not None:
-                        rec.held.instantiate(self.conn.app_id, dict(rec.values))
+                        if not rec.no_instantiate:
+                            rec.held.instantiate(self.conn.app_id, dict(rec.values))
                         self.conn.commit_subroutine(rec.held)
                     self.on_flush(self.n_flush)
                     self.n_flush += 1
@@ -216,7 +230,7 @@ class Recorder:
         except Failure:
             raise
         except Exception as e:
-            self.error = f"{type(e).__name__}: {str(e).splitlines()[0][:160]}"
+            self.error = f"{type(e).__name__}: {(str(e).splitlines() or [str()])[0][:160]}"
 
     def on_flush(self, k):
         app = self.conn.app_id
@@ -232,6 +246,12 @@ class Recorder:
                 host[aid] = [h[i] for i in range(len(h))]
             except Exception as e:
                 host[aid] = f"{type(e).__name__}"
+        regs = {}
+        for rid, h in self.runner.regs.items():
+            try:
+                regs[rid] = h.value
+            except Exception as e:
+                regs[rid] = type(e).__name__
         futs = []
         for ref, f in self.runner.futures:
             try:
@@ -244,6 +264,7 @@ class Recorder:
                 "arrays": {a: list(v) for a, v in sorted(ex._app_arrays[app]._arrays.items())},
                 "host_arrays": host,
                 "host_futures": futs,
+                "host_regs": regs,
                 "declared": declared,
                 "n_subroutines": len(subs),
             }
@@ -262,9 +283,9 @@ def check(case) -> Dict[str, Any]:
     n = min(len(A.records), len(B.records))
     for k in range(n):
         ra, rb = A.records[k], B.records[k]
-        for key in ("events", "arrays", "host_arrays", "host_futures", "declared"):
+        for key in ("events", "arrays", "host_arrays", "host_futures", "host_regs", "declared", "n_subroutines"):
             if ra[key] != rb[key]:
-                what = {"events": "controller trace", "arrays": "controller arrays", "host_arrays": "host-visible arrays", "host_futures": "host-visible Future values", "declared": "arrays declared by the subroutine"}[key]
+                what = {"events": "controller trace", "arrays": "controller arrays", "host_arrays": "host-visible arrays", "host_futures": "host-visible Future values", "host_regs": "host-visible RegFuture values", "declared": "arrays declared by the subroutine", "n_subroutines": "number of subroutines sent so far"}[key]
                 raise Failure(f"A-vs-B:{key}", case, f"flush {k}: {what} differ: precompiled flow {ra[key]} vs direct flow {rb[key]}")
     if A.error != B.error or len(A.records) != len(B.records):
         raise Failure("A-vs-B:error", case, f"precompiled flow ended with {A.error} after {len(A.records)} flushes, direct flow with {B.error} after {len(B.records)}")
@@ -320,8 +341,9 @@ def shard(ctx: Ctx) -> None:
 
     def body_delayed(case):
         info = check(case)
-        v = case["values"]["t0"]
-        d = next(x[4] for x in case["segment"] if x[0] == "rot")
+        rotx = next(x for x in case["segment"] if x[0] == "rot")
+        v = case["values"]["t0"] if isinstance(rotx[3], dict) else rotx[3]
+        d = rotx[4]
         nt = v % (2 ** (d + 1)) != 0 and bool(case["middle"])
         labels = ["delayed", "nv" if case["nv"] else "vanilla"] + (["flush-between-compile-and-commit"] if info.get("middle_flush") else []) + (["ops-between-compile-and-commit"] if case["middle"] else [])
         stt.case([case["prefix"], case["segment"], case["middle"], case["tail"], case["values"], case["nv"]], nt, labels, sample=case if len(str(case)) < 900 else None)
